@@ -446,7 +446,7 @@ def check_step(run, last_op, pending):
             v = vars(obj).get(n)
             present = machine_bound(v) or type(v).__name__ == 'FunctionWrapper'
             if present != expected:
-                bad('monitor', 'helper-missing' if expected else 'helper-bound-against-override-policy', model=i, name=n, kind=kind)
+                bad('monitor', 'helper-missing' if expected else 'helper-bound-against-override-policy', model=i, name=n, helper_kind=kind)
             elif present:
                 judged.add(n)
         # -- is_<state>() / is_<state>(allow_substates=True) for every state ---------------------
